@@ -18,7 +18,6 @@ import numpy as np
 from harness.common import deep_compare, err_kind, frac
 
 PID = "C05"
-DISABLED = True
 THEOREMS = [
     "PorepyVerif.C05.inv_step",
     "PorepyVerif.C05.inv_reachable",
@@ -365,6 +364,8 @@ def _check_layout(w, case, clustered_expected, tag):
             return {"what": f"{tag}: identify_dof({d}) did not raise with num_dofs = {N}", "key": "identify-out-of-range-accepted"}
         except KeyError:
             pass
+        except Exception as e:
+            return {"what": f"{tag}: identify_dof({d}) with num_dofs = {N} raised {type(e).__name__} instead of KeyError", "key": "identify-out-of-range-wrong-error"}
     return None
 
 
